@@ -29,6 +29,7 @@
 //!   R12 invocations of the crate's own single-rule macro_rules macros (src/lib.rs) are expanded textually
 //!   R10h (`//@loop n iter=it hoist`) `for P in E {` -> `let __itN = verif_hoist(E); let ghost __itsN = __itN@; for P in it: __itN {`
 //!   R14 (with R10h) `V.into_iter().rev()` -> `verif_rev_vec(V)`
+//!   R21 (`//@name_call METHOD K` + ghost text) the K-th call `X.METHOD(.., CLOSURE)` is evaluated in front of its statement with the closure and the result bound to names
 //!   R20 an item (nested fn) declared inside the extracted body is dropped from the body text
 //!   R19 / R19b (`//@extract .. lower=fold,for_each`) `X.fold(init, |acc, item| BLOCK)` / `X.for_each(|item| BLOCK)` -> loops over the visited items
 //!   R18 (`//@replace_text` + FROM line + TO line) the unique occurrence of the text FROM (modulo whitespace) -> TO
@@ -152,7 +153,7 @@ fn load_template(path: &Path, mode: &str, items: &mut Vec<TItem>) {
                     cur.as_mut().unwrap_or_else(|| die(4, format!("{}:{}: stray source_sig", pname, ln))).source_sig =
                         Some(tail.to_string());
                 }
-                "sig" | "spec" | "loop" | "at" | "closure" | "binop" | "rename_call" | "replace_text" => {
+                "sig" | "spec" | "loop" | "at" | "closure" | "binop" | "rename_call" | "replace_text" | "name_call" => {
                     let c = cur.as_mut().unwrap_or_else(|| die(4, format!("{}:{}: stray section", pname, ln)));
                     let (pos, kv) = parse_kv(tail);
                     c.sections.push(Section { kind: word.to_string(), args: pos, tags: kv.get("tags").cloned(), kv: kv.clone(), text: String::new() });
@@ -328,6 +329,8 @@ struct BodyScan {
     binops: BTreeMap<String, Vec<((usize, usize), (usize, usize))>>,
     // method-call identifiers by name: byte range of the identifier
     method_idents: BTreeMap<String, Vec<(usize, usize)>>,
+    // method calls by name: (range of the whole call expression, range of the last argument, start of the enclosing statement)
+    method_calls: BTreeMap<String, Vec<((usize, usize), Option<(usize, usize)>, usize)>>,
     // R11c loops: loop ordinal -> offset just after the closure's block (where the lanes have been put back: anchor `loop_tail`)
     lane_loops: BTreeMap<usize, usize>,
     // R19 loops: the body block is generated around the closure's block (loop_start goes inside the closure's block)
@@ -869,6 +872,10 @@ impl<'a, 'ast> Visit<'ast> for Scanner<'a> {
         self.record_call(c.method.to_string());
         let mr = self.src.range(c.method.span());
         self.scan.method_idents.entry(c.method.to_string()).or_default().push(mr);
+        if let Some(top) = self.scan.stmt_stack.last().cloned() {
+            let la = c.args.last().map(|a| self.src.range(a.span()));
+            self.scan.method_calls.entry(c.method.to_string()).or_default().push((self.src.range(c.span()), la, top.start));
+        }
         syn::visit::visit_expr_method_call(self, c);
     }
 }
@@ -1105,6 +1112,23 @@ fn main() {
                             let a0 = bo + chars[ci].0;
                             let b0 = bo + chars[ci + cn - 1].0 + chars[ci + cn - 1].1.len_utf8();
                             edits.push((a0, b0, seq, to, json!({"kind": "rewrite", "rule": "R18", "fn": id, "tags": body_tags})));
+                            seq += 1;
+                        }
+                        "name_call" => {
+                            // R21 (opt-in): `//@name_call METHOD K`: the K-th call `RECV.METHOD(.., CLOSURE)` becomes, in place, the block
+                            // `{ let __cl = CLOSURE; let ghost __clg = __cl; let __t = RECV.METHOD(.., __cl); <ghost text> __t }`
+                            // (names the inline closure and the result for the ghost code; the closure is created before the other
+                            // arguments are evaluated, which is unobservable)
+                            let m = s.args.get(0).cloned().unwrap_or_default();
+                            let k: usize = s.args.get(1).and_then(|x| x.parse().ok()).unwrap_or(0);
+                            let (cr, la, st) = scan.method_calls.get(&m).and_then(|v| v.get(k)).cloned().unwrap_or_else(|| die(3, format!("lost-anchor: call {} #{} not found in {}", m, k, id)));
+                            let la = la.unwrap_or_else(|| die(3, format!("lost-anchor: call {} #{} has no argument in {}", m, k, id)));
+                            let head = src.text[cr.0..la.0].to_string();
+                            let _ = st;
+                            // in place: `{ let __cl = <closure, with its own annotations>; let ghost __clg = __cl; let __t = HEAD __cl); <ghost> __t }`
+                            edits.push((cr.0, la.0, seq, "{ let __cl = ".to_string(), json!({"kind": "rewrite", "rule": "R21", "fn": id, "tags": body_tags})));
+                            seq += 1;
+                            edits.push((la.1, cr.1, seq, format!("; let ghost __clg = __cl; let __t = {}__cl);\n{}\n __t }}", head, s.text), json!({"kind": "rewrite", "rule": "R21", "fn": id, "tags": body_tags})));
                             seq += 1;
                         }
                         "rename_call" => {
